@@ -67,56 +67,66 @@ def numericLead (s : String) : Bool :=
   | c :: _ => "0123456789.+-".toList.contains c
   | [] => false          -- (an empty token cannot come out of `str.split()`)
 
-def takeNumeric : List String → List String × List String
-  | t :: rest => if numericLead t then let (a, b) := takeNumeric rest; (t :: a, b) else ([], t :: rest)
-  | [] => ([], [])
-
 inductive KwErr | pop | arrayFill | badLat deriving Repr, DecidableEq
 
-/-- `parse_keywords` up to the assignment of the record: tokens in reading order -/
-def groupTokens : Nat → List String → Except KwErr (List Item)
-  | 0, _ => .ok []
-  | _, [] => .ok []
-  | fuel + 1, elt :: rest =>
-    if "imp".toList.isPrefixOf elt.toList then
-      match rest with
-      | v :: rest' =>
-          let parts := match elt.splitOn ":" with | _ :: tl => (":".intercalate tl).splitOn "," | [] => [""]
-          (groupTokens fuel rest').map (Item.imp parts v :: ·)
-      | [] => .error .pop
-    else if contains elt "fill" then
-      match rest with
-      | first :: rest' =>
-          if contains first ":" then .error .arrayFill else
-          let (ps, rest'') := takeNumeric rest'
-          (groupTokens fuel rest'').map (Item.fill (contains elt "*") first ps :: ·)
-      | [] => .error .pop
-    else if contains elt "lat" then
-      match rest with
-      | v :: rest' =>
-          -- `parse_lat_kw`: the value must read as the integer 1 or 2 (checked when the keyword is met,
-          -- even if a later LAT overrides it)
-          if v.toInt? == some 1 || v.toInt? == some 2 then (groupTokens fuel rest').map (Item.lat v :: ·)
-          else .error .badLat
-      | [] => .error .pop
-    else if contains elt "trcl" then
-      let (ps, rest') := takeNumeric rest
-      (groupTokens fuel rest').map (Item.trcl (contains elt "*") ps :: ·)
-    else if contains elt "u" then
-      match rest with
-      | v :: rest' => (groupTokens fuel rest').map (Item.u v :: ·)
-      | [] => .error .pop
-    else if contains elt "rho" then
-      match rest with
-      | v :: rest' => (groupTokens fuel rest').map (Item.rho v :: ·)
-      | [] => .error .pop
-    else if contains elt "mat" then
-      match rest with
-      | v :: rest' => (groupTokens fuel rest').map (Item.mat v :: ·)
-      | [] => .error .pop
-    else groupTokens fuel rest
+/-- what `parse_keywords` is waiting for after the tokens read so far -/
+inductive KwState where
+  | idle
+  | wantImp (particles : List String)          -- after `imp:…`
+  | wantU | wantMat | wantRho | wantLat        -- after a one-argument keyword
+  | fillFirst (star : Bool)                    -- after `fill` / `*fill`: the universe (or the first range)
+  | fillNums (star : Bool) (univ : String) (acc : List String)   -- numeric arguments of FILL, greedy
+  | trclNums (star : Bool) (acc : List String)                   -- numeric arguments of TRCL, greedy
+deriving Repr, DecidableEq
 
-def parseKeywords (toks : List String) : Except KwErr KW := (groupTokens (toks.length + 1) toks).map applyItems
+/-- a keyword token read in state `idle` (the tests of `parse_keywords`, in their order) -/
+def startKeyword (elt : String) : KwState :=
+  if "imp".toList.isPrefixOf elt.toList then
+    .wantImp (match elt.splitOn ":" with | _ :: tl => (":".intercalate tl).splitOn "," | [] => [""])
+  else if contains elt "fill" then .fillFirst (contains elt "*")
+  else if contains elt "lat" then .wantLat
+  else if contains elt "trcl" then .trclNums (contains elt "*") []
+  else if contains elt "u" then .wantU
+  else if contains elt "rho" then .wantRho
+  else if contains elt "mat" then .wantMat
+  else .idle                                   -- any other token is skipped
+
+/-- one token -/
+def kwStep (st : KwState × List Item) (tok : String) : Except KwErr (KwState × List Item) :=
+  match st with
+  | (.idle, acc) => .ok (startKeyword tok, acc)
+  | (.wantImp ps, acc) => .ok (.idle, acc ++ [.imp ps tok])
+  | (.wantU, acc) => .ok (.idle, acc ++ [.u tok])
+  | (.wantMat, acc) => .ok (.idle, acc ++ [.mat tok])
+  | (.wantRho, acc) => .ok (.idle, acc ++ [.rho tok])
+  | (.wantLat, acc) =>
+      -- `parse_lat_kw`: the value must read as the integer 1 or 2 (checked when the keyword is met)
+      if tok.toInt? == some 1 || tok.toInt? == some 2 then .ok (.idle, acc ++ [.lat tok]) else .error .badLat
+  | (.fillFirst star, acc) => if contains tok ":" then .error .arrayFill else .ok (.fillNums star tok [], acc)
+  | (.fillNums star u ns, acc) =>
+      if numericLead tok then .ok (.fillNums star u (ns ++ [tok]), acc)
+      else .ok (startKeyword tok, acc ++ [.fill star u ns])
+  | (.trclNums star ns, acc) =>
+      if numericLead tok then .ok (.trclNums star (ns ++ [tok]), acc)
+      else .ok (startKeyword tok, acc ++ [.trcl star ns])
+
+def kwRun (st : KwState × List Item) : List String → Except KwErr (KwState × List Item)
+  | [] => .ok st
+  | t :: ts => match kwStep st t with | .ok st' => kwRun st' ts | .error e => .error e
+
+/-- end of the option list: a keyword still waiting for its value is `list.pop()` on an empty list -/
+def kwFinish (st : KwState × List Item) : Except KwErr (List Item) :=
+  match st with
+  | (.idle, acc) => .ok acc
+  | (.fillNums star u ns, acc) => .ok (acc ++ [.fill star u ns])
+  | (.trclNums star ns, acc) => .ok (acc ++ [.trcl star ns])
+  | _ => .error .pop
+
+/-- `parse_keywords` up to the assignment of the record: tokens in reading order -/
+def groupTokens (toks : List String) : Except KwErr (List Item) :=
+  match kwRun (.idle, []) toks with | .ok st => kwFinish st | .error e => .error e
+
+def parseKeywords (toks : List String) : Except KwErr KW := (groupTokens toks).map applyItems
 
 /-- `apply_but` on the option tokens -/
 def applyBut (base but : List String) : List String := base ++ but
